@@ -9,6 +9,7 @@
   returns a stable, NUL-terminated buffer of that length is checked by the correspondence run.
 -/
 import Edn.Proofs.Str
+import Edn.Proofs.StrSound
 
 namespace Edn.Properties.C06
 open Edn.Model Edn.Spec Edn.Proofs
@@ -61,5 +62,28 @@ theorem string_equals_agrees (cfg : Cfg) (data : Bytes) (esc : Bool) (text : Byt
 example : StrContent ⟨true, false⟩ [0x61, 0x00, 0x62, 0x5C, 0x6E] [0x61, 0x00, 0x62, 0x0A] :=
   .cons (.plain 0x61 (by decide) (by decide)) (.cons (.plain 0x00 (by decide) (by decide))
     (.cons (.plain 0x62 (by decide) (by decide)) (.cons .newline .nil)))
+
+/-- **Exactness, every configuration**: for the text between the quotes of an ordinary literal,
+    the reader returns a string value whose bytes can be fetched as `dn` **iff** the text spells
+    units denoting `dn` (`StrContentX`: `StrContent` plus, with the Clojure flag, octal escapes of
+    one to three digits up to `\377`, longest match, denoting one raw byte).  So an undefined escape,
+    a truncated `\u`, a surrogate, a lone trailing backslash are all access-time errors, and no
+    spelling decodes to anything but its denotation. -/
+theorem literal_fetch_is_the_grammar (ctx : Ctx) (sp dn rest : Bytes) (cl : List Call)
+    (hnb : ¬ (ctx.cfg.exp = true ∧ ∃ t, (0x22 :: (sp ++ 0x22 :: rest)) = 0x22 :: 0x22 :: 0x22 :: 0x0A :: t)) :
+    (∃ h esc, readString ctx { rest := 0x22 :: (sp ++ 0x22 :: rest), calls := cl } =
+        .ok (.str h sp esc) { rest := rest, calls := cl } ∧ stringGet ctx.cfg sp esc = some dn)
+      ↔ StrContentX ctx.cfg sp dn :=
+  readString_iff ctx sp dn rest cl hnb
+
+/-- the decoder alone: on data without an unescaped quote (what the reader stores) it returns `dn`
+    iff the data spells `dn`; without the Clojure flag `StrContent` itself is exact -/
+theorem decode_is_the_grammar (cfg : Cfg) (sp dn : Bytes) (hq : findQuote sp = none) :
+    stringGet cfg sp true = some dn ↔ StrContentX cfg sp dn :=
+  stringGet_iff cfg sp dn hq
+
+theorem decode_is_the_grammar_noclj (cfg : Cfg) (hc : cfg.clj = false) (sp dn : Bytes) (hq : findQuote sp = none) :
+    stringGet cfg sp true = some dn ↔ StrContent cfg sp dn :=
+  stringGet_iff_noclj cfg hc sp dn hq
 
 end Edn.Properties.C06
